@@ -1,142 +1,6 @@
-(* C10 — flat-integer interface of the model for the generic OCaml driver.
-   One stream; the first integer of an input is the kind (see harness/C10/zz_verif_c10_test.go):
-     1 budget : cap alloc annoKind annoVal thr hasMin minPct nodeU pertKind pertIdx pertDelta
-                P (lab kubeBE inMeta hasMetric use)*P  H (qos base hasMetric use)*H      obs [b1 b2]
-     2 pick   : n P (cpu core socket node)*P                                            obs [len ids..]
-     3 cpuset : budget policy K old*K P procs Q (lab k cpus*k)*Q resKind R res*R sysKind S sys*S
-                                                       obs [len root.. len pod.. len ctr..]
-     4 quota  : budget cap cur                                                          obs [quota] *)
+(* C10 — extraction of the four entry points of Cases.v for the generic OCaml driver. *)
 From Coq Require Import List ZArith Bool.
-From Verif Require Import Lib.Wire Gen.Gen_consts C10.Model C10.Spec.
-Import ListNotations.
-Open Scope Z_scope.
-
-Definition nth0 (k : nat) (l : list Z) : Z := nth k l 0.
-
-Definition dec_pod (l : list Z) : pod * list Z :=
-  (mkPod (nth0 0 l) (zb (nth0 1 l)) (zb (nth0 2 l)) (zb (nth0 3 l)) (nth0 4 l), skipn 5 l).
-Definition dec_happ (l : list Z) : happ * list Z :=
-  (mkHapp (nth0 0 l) (nth0 1 l) (zb (nth0 2 l)) (nth0 3 l), skipn 4 l).
-Definition dec_proc (l : list Z) : proc * list Z :=
-  (mkProc (nth0 0 l) (nth0 1 l) (nth0 2 l) (nth0 3 l), skipn 4 l).
-Definition dec_cpod (l : list Z) : cpod * list Z :=
-  let '(cs, r) := take_list (tl l) in (mkCpod (hdZ l) cs, r).
-
-(* ---------- kind 1 *)
-Definition dec_budget (l : list Z) : binput * (Z * Z * Z) :=
-  let capm := nth0 0 l in let alloc := nth0 1 l in
-  let ak := nth0 2 l in let av := nth0 3 l in
-  let anno := if ak =? 1 then av else if ak =? 2 then av * 1000 else 0 in
-  let thr := nth0 4 l in
-  let mn := if zb (nth0 5 l) then Some (nth0 6 l) else None in
-  let nodeu := nth0 7 l in
-  let '(ps, r1) := decode_seq dec_pod (skipn 11 l) in
-  let '(hs, _) := decode_seq dec_happ r1 in
-  (mkB capm alloc anno thr mn nodeu ps hs, (nth0 8 l, nth0 9 l, nth0 10 l)).
-
-(* ---------- kind 2 *)
-Definition dec_pick (l : list Z) : Z * list proc :=
-  (hdZ l, fst (decode_seq dec_proc (tl l))).
-
-(* ---------- kind 3 *)
-Definition dec_adjust (l : list Z) : ainput :=
-  let b := nth0 0 l in let st := zb (nth0 1 l) in
-  let '(old, r1) := take_list (skipn 2 l) in
-  let '(procs, r2) := decode_seq dec_proc r1 in
-  let '(pods, r3) := decode_seq dec_cpod r2 in
-  let resk := hdZ r3 in
-  let '(res, r4) := take_list (tl r3) in
-  let sysk := hdZ r4 in
-  let '(sys, _) := take_list (tl r4) in
-  mkA b st old procs pods (if resk =? 1 then res else [])
-      (if (sysk =? 1) || (sysk =? 2) then sys else []).
-
-Definition dec_obs3 (o : list Z) : option (list Z * list Z * list Z) :=
-  let '(a, r1) := take_list o in
-  let '(b, r2) := take_list r1 in
-  let '(c, r3) := take_list r2 in
-  match r3 with
-  | [] => if (lenZ a =? hdZ o) && (lenZ b =? hdZ r1) && (lenZ c =? hdZ r2) then Some (a, b, c) else None
-  | _ => None
-  end.
-
-Definition run_case (inp : list Z) : list Z :=
-  match inp with
-  | 1 :: l =>
-      let '(i, (pk, pi, pd)) := dec_budget l in [budget i; budget (perturb pk pi pd i)]
-  | 2 :: l =>
-      let '(n, ps) := dec_pick l in encode_list (pick n ps)
-  | 3 :: l =>
-      let '(a, b, c) := adjust (dec_adjust l) in encode_list a ++ encode_list b ++ encode_list c
-  | 4 :: l => [quota_new (nth0 0 l) (nth0 1 l) (nth0 2 l)]
-  | _ => [-1]
-  end.
-
-(* property decided on the IMPLEMENTATION's observable; 0 = holds, else the clause number *)
-Definition prop_case (inp obs : list Z) : Z :=
-  match inp with
-  | 1 :: l => let '(i, (pk, pi, pd)) := dec_budget l in budget_code pk pi pd i obs
-  | 2 :: l =>
-      let '(n, ps) := dec_pick l in
-      let '(out, r) := take_list obs in
-      match r with
-      | [] => if lenZ out =? hdZ obs then pick_code n ps out else 209
-      | _ => 209
-      end
-  | 3 :: l =>
-      match dec_obs3 obs with
-      | Some o => adjust_code (dec_adjust l) o
-      | None => 309
-      end
-  | 4 :: l =>
-      match obs with
-      | [q] => quota_code (nth0 0 l) (nth0 1 l) (nth0 2 l) q
-      | _ => 409
-      end
-  | _ => 9
-  end.
-
-(* non-trivial: budget above the configured minimum with at least one counted non-BE consumer;
-   pick of 2..|ps| cpus from at least two buckets; an adjust that hands out a non-empty set on
-   a node with at least one protected cpu; a quota that is written (no bypass) *)
-Definition nontrivial_case (inp : list Z) : bool :=
-  match inp with
-  | 1 :: l =>
-      let '(i, _) := dec_budget l in
-      (0 <? pods_nonbe (b_pods i) + hosts_nonbe (b_hosts i))
-      && match b_min i with
-         | None => true
-         | Some mp => Z.quot (b_cap i * mp) 100 <? budget i
-         end
-  | 2 :: l =>
-      let '(n, ps) := dec_pick l in
-      (2 <=? n) && (n <=? lenZ ps) && (2 <=? lenZ (buckets_of ps))
-  | 3 :: l =>
-      let i := dec_adjust l in
-      match be_cpuset i with
-      | Some (_ :: _) => existsb (protected i) (map cpu (a_procs i))
-      | _ => false
-      end
-  | 4 :: l => negb (quota_new (nth0 0 l) (nth0 1 l) (nth0 2 l) =? nth0 2 l)
-  | _ => false
-  end.
-
-(* known-finding shapes:
-   2 = clause 303 where every protected cpu in the written set is an LSE cpu whose cpuIdToPool
-       entry was overwritten by a later pod of another class *)
-Definition finding_sig (inp obs : list Z) : Z :=
-  match inp with
-  | 3 :: l =>
-      let i := dec_adjust l in
-      match dec_obs3 obs with
-      | Some (_, _, ctr) =>
-          if (adjust_code i (match dec_obs3 obs with Some o => o | None => ([], [], []) end) =? 303)
-             && forallb (fun c => negb (protected i c) || lse_overwritten i c) ctr
-          then 2 else 0
-      | None => 0
-      end
-  | _ => 0
-  end.
+From Verif Require Import C10.Cases.
 
 Require Extraction.
 Require Import ExtrOcamlBasic.
